@@ -26,8 +26,8 @@ func TestTqvWitness(t *testing.T) {
 	s.close()
 	after := tqvGauge()
 	out := map[string]interface{}{
-		"obligation": "tacquito.sessions.close/post#1",
-		"scenario":   "set(session 9); close()",
+		"obligation":       "tacquito.sessions.close/post#1",
+		"scenario":         "set(session 9); close()",
 		"gauge_before_set": before, "gauge_before_close": mid, "len_known": n, "gauge_after_close": after,
 		"violated": after != mid-float64(n),
 	}
